@@ -133,7 +133,7 @@ func oracleC02(r *Result) {
 func (g G) planC02() *Plan {
 	o := &mixOpts{family: "delivery-targets",
 		world: worldOpts{nilUnknownPct: 12, maxSPs: 3, maxUsers: 2, maxReplicas: 2, hardPct: 10, hardURLPct: 60, acsVariety: true, sloVariety: true, parkVariety: true, issuerVariety: true, signReqVariety: true, noCertPct: 10},
-		wSSO:  35, wCallback: 18, wSLO: 14, wResume: 22, wFinish: 10, wComplete: 8, wRereg: 7, wDelSP: 1, wAdvance: 2, wRestart: 1,
+		wSSO:  35, wCallback: 18, wSLO: 14, wMeta: 3, wAttrQ: 3, wCert: 1, wResume: 22, wFinish: 10, wComplete: 8, wRereg: 7, wDelSP: 1, wAdvance: 2, wRestart: 1,
 		devPct: 15, tamperPct: 40, timePct: 5, rogueSPPct: 8, hostVariety: true, faultPcts: []int{0, 0, 10},
 		minSteps: 4, maxSteps: 36, maxPre: 3, hardPre: true, autoFinishPct: 45, callbackAfter: 60, raceBias: true}
 	p := g.planMix("C02", o)
